@@ -279,9 +279,10 @@ Tick(d) ==
     /\ now' = now + d /\ UNCHANGED <<mem, store, ideal, known>>
     /\ Log([op |-> "Tick", d |-> d, now |-> now'])
 
-SaveState ==         \* GET /save-state
+SaveState ==         \* GET /save-state : an instance whose session is locked (an open stream) is left to the request that holds
+                     \* the lock - it externalises the session when it ends (StepLock.tla: /save-state takes the lock, too)
     /\ "SaveState" \in Ops /\ Adapter
-    /\ store' = [i \in Inst |-> IF mem[i] # Null THEN Externalise(mem, i) ELSE store[i]]
+    /\ store' = [i \in Inst |-> IF mem[i] # Null /\ ~Locked(mem, i) THEN Externalise(mem, i) ELSE store[i]]
     /\ UNCHANGED <<now, mem, ideal, known>>
     /\ Log([op |-> "SaveState", status |-> 200, saved |-> Alive(mem)])
 
